@@ -488,7 +488,7 @@ def componentLoop (a b : BMat) (mode : Mode) :
     List (List Nat) → List (List Bool) → List Bool → List EqOut → Except Err (Option (List Bool) × List EqOut)
   | [], _, sol, parts => .ok (some sol, parts)
   | nodes :: rest, draws, sol, parts =>
-    match isLcEquivalent (subMat a nodes).norm (subMat b nodes).norm mode (draws.headD []) with
+    match isLcEquivalent (subMat a nodes) (subMat b nodes) mode (draws.headD []) with
     | .error e => .error e
     | .ok out =>
       match out.sol with
